@@ -3,6 +3,7 @@
 diagnostic at the program) and one crate `twins` holding, as modules, the compiling twin of every witness (identical except
 for the offending construct - a witness whose text is merely wrong would also fail; the twin rules that out)."""
 import itertools, json, os, sys
+REPO = os.environ.get('ASCENT_REPO', '/repo')
 
 BASE_DECLS = ['relation e(i32, i32);', 'relation p(i32, i32);', 'relation q(i32);', 'relation z(i32);',
               'relation a1(i32);', 'relation a2(i32);', 'relation a3(i32);']
@@ -123,13 +124,13 @@ def main():
         d = os.path.join(out, w['name'])
         os.makedirs(os.path.join(d, 'src'), exist_ok=True)
         open(os.path.join(d, 'Cargo.toml'), 'w').write(
-            '[package]\nname = "%s"\nversion = "0.1.0"\nedition = "2021"\n[dependencies]\nascent = { path = "/repo/ascent" }\n' % w['name'])
+            '[package]\nname = "%s"\nversion = "0.1.0"\nedition = "2021"\n[dependencies]\nascent = { path = "%s/ascent" }\n' % (w['name'], REPO))
         open(os.path.join(d, 'src', 'lib.rs'), 'w').write('#![allow(warnings)]\n' + pre + 'pub mod w {\n   use super::*;\n' + w['bad'] + '}\n')
         members.append(w['name'])
     d = os.path.join(out, 'twins')
     os.makedirs(os.path.join(d, 'src'), exist_ok=True)
     open(os.path.join(d, 'Cargo.toml'), 'w').write(
-        '[package]\nname = "twins"\nversion = "0.1.0"\nedition = "2021"\n[dependencies]\nascent = { path = "/repo/ascent" }\n')
+        '[package]\nname = "twins"\nversion = "0.1.0"\nedition = "2021"\n[dependencies]\nascent = { path = "%s/ascent" }\n' % REPO)
     src = ['#![allow(warnings)]', pre]
     for w in wits:
         src.append('pub mod %s {\n   use super::*;\n%s}\n' % (w['name'], w['good']))
